@@ -59,6 +59,21 @@ Theorem c01_every_primitive_operation_keeps_the_stack_well_formed :
 Proof. exact StackProofs.step_Inv. Qed.
 Print Assumptions c01_every_primitive_operation_keeps_the_stack_well_formed.
 
+(* The list and table clauses.  Where a node may be put is the handlers' choice, so these clauses are invariants of
+   GUARDED operation sequences only (Stack.guard: a node is only pushed onto a permitted parent - LIST_ITEM onto LIST and
+   nothing else onto LIST, rows and captions onto TABLE, cells onto TABLE_ROW - and no text is appended to a LIST); the
+   replay of recorded runs checks that the real handlers' sequences are guarded (Stack.check_trace, result 4).  For every
+   guarded sequence followed by the closing loop, the returned tree is StackPlacedProofs.PlacedRoot: at every depth and
+   in children, arguments, definitions and list-item heads alike, every node satisfies Stack.placed_ok under its parent
+   and a LIST holds no text. *)
+From WTP Require Proofs.StackPlacedProofs.
+Theorem c01_guarded_handlers_place_list_and_table_nodes :
+  forall (fin : Stack.text -> Stack.text) (magic : BinNums.N -> bool) title ops st flags st' t,
+    Stack.run_guarded fin magic (Stack.init title) ops = Some st -> Stack.finale fin magic flags st = Some st' ->
+    Stack.result fin st' = Some t -> StackPlacedProofs.PlacedRoot t.
+Proof. exact StackPlacedProofs.guarded_sequences_place_list_and_table_nodes. Qed.
+Print Assumptions c01_guarded_handlers_place_list_and_table_nodes.
+
 (* the premises are met by a real run: "[[c|d]]s {{lc:A}} ''" as the parser performs it *)
 Example c01_a_recorded_run :
   let fin := Stack.fin_of [] in
